@@ -49,7 +49,16 @@ func c10run(idx int) run.Result {
 	withValid := valid != nil && valid.Class == grammar.Core && !valid.Quit && len(valid.Expect) > 0
 	for vi, va := range vs {
 		tok := fmt.Sprintf("echo%d.%d", idx, vi)
-		reqs := []resp.Value{va.Req, resp.Cmd("ECHO", tok)}
+		// every second variant arrives on a connection that has already served two requests (answered by the
+		// framework itself, no handler involved): whatever the connection keeps from request to request - parsed
+		// messages, buffers - must not lend the ill-formed request what it lacks
+		pre := 0
+		var reqs []resp.Value
+		if vi%2 == 1 {
+			reqs = append(reqs, resp.Cmd("ECHO", "earlier-"+tok), resp.Cmd("PING", "earlier-argument"))
+			pre = 2
+		}
+		reqs = append(reqs, va.Req, resp.Cmd("ECHO", tok))
 		if withValid {
 			reqs = append(reqs, valid.Value())
 		}
@@ -60,9 +69,9 @@ func c10run(idx int) run.Result {
 		after := time.Now()
 		calls := rec.Snapshot()
 		var laterCalls []double.Call
-		if withValid && len(pr.Snap.WouldBlocks) >= 3 {
+		if withValid && len(pr.Snap.WouldBlocks) >= pre+3 {
 			// calls made after the ECHO was answered belong to the well-formed request
-			cut := pr.Snap.WouldBlocks[2].Seq
+			cut := pr.Snap.WouldBlocks[pre+2].Seq
 			var early []double.Call
 			for _, c := range calls {
 				if c.Seq > cut {
@@ -75,7 +84,7 @@ func c10run(idx int) run.Result {
 		}
 		res.Count("variants", 1)
 		res.Count("class:"+va.Class, 1)
-		key := gen.Hash64(stream[:ends[0]])
+		key := gen.Hash64(stream[:ends[pre]]) ^ uint64(pre)
 		res.Keys = append(res.Keys, key)
 		desc := map[string]any{"command": name, "class": va.Class, "what": va.What, "request": clipS(va.Req.String(), 400), "request_hex": hexClip(resp.Encode(va.Req), 300),
 			"calls": callStrs(calls), "replies": clipS(fmt.Sprint(pr.Frames), 300)}
@@ -96,12 +105,12 @@ func c10run(idx int) run.Result {
 			res.Violate(sig+":handler-invoked", "the command handler is not invoked for an ill-formed request (no partial execution, no invented defaults)", fmt.Sprintf("calls=%v", callStrs(calls)), desc)
 			continue
 		}
-		if !pr.Frames[0].IsErr() {
-			res.Violate(sig+":not-an-error", "an ill-formed request is answered with an error reply", fmt.Sprintf("reply=%s", clipS(pr.Frames[0].String(), 200)), desc)
+		if !pr.Frames[pre].IsErr() {
+			res.Violate(sig+":not-an-error", "an ill-formed request is answered with an error reply", fmt.Sprintf("reply=%s", clipS(pr.Frames[pre].String(), 200)), desc)
 			continue
 		}
-		if !resp.Equal(pr.Frames[1], resp.BulkS(tok)) {
-			res.Violate(sig+":next", "the following request is processed normally", fmt.Sprintf("ECHO answered %s", clipS(pr.Frames[1].String(), 200)), desc)
+		if !resp.Equal(pr.Frames[pre+1], resp.BulkS(tok)) {
+			res.Violate(sig+":next", "the following request is processed normally", fmt.Sprintf("ECHO answered %s", clipS(pr.Frames[pre+1].String(), 200)), desc)
 			continue
 		}
 		if withValid {
@@ -134,7 +143,7 @@ func init() {
 	run.Register(&run.Prop{
 		ID: "C10", Level: "exploration",
 		Rule: func(tier string) string {
-			return "case = one well-formed vector of one grammar entry (every entry, several generated vectors each so that all option shapes occur) from which ALL ill-formed variants are derived systematically: each required position omitted (vector cut before it), each value position replaced by a null bulk, each numeric position replaced by non-numeric / fractional / overflowing tokens (fixed boundary tokens plus six seeded random 20..25-digit numbers per position), each pair list cut to a dangling half; plus the complete table of SET exclusive-option combinations, repetitions and non-positive expiries. Each variant runs as [variant, ECHO token, the well-formed vector itself] on a fresh scripted connection with a recording handler. Oracle: zero handler calls for the variant, reply 1 is an error frame, reply 2 is the echo, and the well-formed request behind them produces exactly the handler call(s) the grammar predicts (nothing of the refused request leaks into it). distinct_nontrivial = distinct variant request encodings (every variant is ill-formed, hence non-trivial); counters class:* give variants per class"
+			return "case = one well-formed vector of one grammar entry (every entry, several generated vectors each so that all option shapes occur) from which ALL ill-formed variants are derived systematically: each required position omitted (vector cut before it), each value position replaced by a null bulk, each numeric position replaced by non-numeric / fractional / overflowing tokens (fixed boundary tokens plus six seeded random 20..25-digit numbers per position), each pair list cut to a dangling half; plus the complete table of SET exclusive-option combinations, repetitions and non-positive expiries. Each variant runs as [variant, ECHO token, the well-formed vector itself] on a fresh scripted connection with a recording handler; every second variant on a connection that has already answered two requests (ECHO, PING with an argument) before it. Oracle: zero handler calls for the variant, reply 1 is an error frame, reply 2 is the echo, and the well-formed request behind them produces exactly the handler call(s) the grammar predicts (nothing of the refused request leaks into it). distinct_nontrivial = distinct variant request encodings (every variant is ill-formed, hence non-trivial); counters class:* give variants per class"
 		},
 		Assumptions: []string{"what is ill-formed is decided by the independent grammar (Redis command reference): arity, numeric syntax, pair completeness, SET option exclusivity"},
 		Setup: func(tier string, seed uint64) int {
